@@ -10,7 +10,8 @@ TECHNIQUE = ("Coq theorems: layout length / palindrome / doubled centre and the 
              "history; parity of the Wx response U(-a) = (-1)^n Z U(a) Z over any ring; certificate soundness for the Jacobian values "
              "(coefficient-wise against the X part of the exact element); soundness of forward-mode differentiation of the model by "
              "a logical relation (dual intervals enclose value and derivative of every coefficient of the perturbed element) and the "
-             "end-to-end column certificate (C12_jacobian_column_certificate: row j of column k is within tol of the derivative at 0 "
+             "3x3 recurrences of gen_poly_jacobian_components modelled (value = Im<0|U|0>, entries = partial derivatives, interval run sound) and "
+             "compared entry by entry at every sample point; end-to-end column certificate (C12_jacobian_column_certificate: row j of column k is within tol of the derivative at 0 "
              "of the T_{2j+parity} coefficient of Im <0|U|0> along red_k, that coefficient being read from the exact real element of "
              "the perturbed phases at every parameter value). The "
              "executable model (layout, complex-interval response, dual-number Jacobian) is compared with SymmetricQSPProtocol on "
@@ -102,6 +103,10 @@ def run(ctx):
         meta.append((ci, "full-for-response", None, red))
         lines.append("(jacf %d %s %s %s)" % (odd, Q.qlist(red), Q.qlist(ro["f"]), qs(Fraction(1, 10 ** 9) * (1 + k))))
         meta.append((ci, "jacf", None, red))
+        for a_hex, comp in zip(c["samples"], ro.get("comp") or []):
+            if comp is not None:
+                lines.append("(jac3 %d %s %s %s)" % (odd, Q.qlist(red), qs(fr(a_hex)), Q.qlist(comp)))
+                meta.append((ci, "jac3", a_hex, red))
         for col in range(k):
             colv = [row[col] for row in ro["df"]] if k > 1 or isinstance(ro["df"][0], list) else [ro["df"][0]]
             lines.append("(jacdf %d %s %d %s %s)" % (odd, Q.qlist(red), col, Q.qlist(colv), qs(Fraction(1, 10 ** 9) * (1 + k))))
@@ -141,6 +146,20 @@ def run(ctx):
                 ctx.fail("symqsp", c, "gen_jacobian() values are not the Chebyshev coefficients of Im<0|U|0> (1-norm distance %s)" %
                          (Q.scaled_to_float(m[1]) if m[1] != "ERR" else "n/a"))
                 bad.add(ci)
+        elif what == "jac3":
+            a = float.fromhex(x)
+            if m == "ERR":
+                ctx.fail("symqsp", c, "gen_poly_jacobian_components(a=%r) returned a vector of the wrong length" % a)
+                bad.add(ci)
+            else:
+                k = len(red)
+                sfac = 1.0 / max(math.sqrt(max(0.0, 1 - a * a)), 1e-9) if abs(a) != 1 else 0.0
+                tol = (k + 1) * (1e-13 + 3e-16 * sfac)
+                worst = max(range(len(m)), key=lambda j: Q.scaled_to_float(m[j]))
+                if Q.scaled_to_float(m[worst]) > tol:
+                    ctx.fail("symqsp", c, "gen_poly_jacobian_components(a=%r): entry %d is at distance %.3e from the 3x3 recurrence model (%s)" %
+                             (a, worst, Q.scaled_to_float(m[worst]), "value Im<0|U|0>" if worst == k else "partial derivative"))
+                    bad.add(ci)
         elif what == "jacdf":
             if m != "1":
                 ctx.fail("symqsp", c, "gen_jacobian() derivative column %d differs from the true partial derivatives (dual-number enclosure)" % x)
